@@ -78,6 +78,11 @@ def aiter_count(ex, p, it):
             cons.append(z3.ULE(f, n))
             fsyms.append(f)
             n = f
+        elif k == 'zip':
+            m, c2, f2 = aiter_count(ex, p, st.fields[0])
+            cons += c2
+            fsyms += f2
+            n = z3.If(z3.ULE(n, m), n, m)
         elif k == 'take':
             m = st.fields[0]
             n = z3.If(z3.ULE(n, m), n, m)
@@ -118,6 +123,9 @@ def gen_elem(ex, p, it, call, k, k_skip):
                 return run(q2, v, i + 1)
             if kind == 'map':
                 return ex.call_closure(q2, st.fields[0], [e], call, lambda q3, r: run(q3, r, i + 1))
+            if kind == 'zip':
+                # pairs the k-th elements of two sequences: two independent generic elements
+                return gen_elem(ex, q2, st.fields[0], call, lambda q3, item2, _e: run(q3, Agg('()', None, (e, item2), 'tuple'), i + 1), k_skip)
             if kind == 'enumerate':
                 return run(q2, Agg('()', None, (ex.fresh(f'index#{q2.seq("enum")}', 'usize'), e), 'tuple'), i + 1)
             if kind == 'filter' and getattr(ex, 'opaque_filters', False):
@@ -218,6 +226,16 @@ def m_adaptor(ex, p, call, k):
         st = stage('deref')
     elif meth in ('map', 'filter', 'filter_map'):
         st = stage(meth, call.args[1])
+    elif meth == 'zip':
+        other = _get(call.args[1], ex, p)
+        if other is None:
+            o2 = call.args[1]
+            c2 = _coll(ex, p, o2)
+            if isinstance(c2, Sym) and (c2.get_ov('collected') is not None or MAP_RE.search(c2.ty) or SET_RE.search(c2.ty) or SEQ_RE.search(c2.ty)):
+                other = mk(o2, 'into_iter', trav=p.seq(f'trav:{vname(c2)}'))
+        if other is None:
+            return NotImplemented
+        st = stage('zip', other)
     elif meth in ('flat_map', 'inspect'):
         # flat_map: the closure runs once per element; what it returns is flattened (its elements are not modelled further)
         st = stage('map', call.args[1])
@@ -398,7 +416,7 @@ def m_len_collected(ex, p, call, k):
 ITER_MODELS = [
     (R(r' as IntoIterator>::into_iter$'), m_into_iter),
     (R(r'(HashMap|BTreeMap|HashSet|BTreeSet|Vec|VecDeque)::(iter|iter_mut|values|values_mut|keys|into_values|into_keys|drain)$|(^|::)slice::(<impl[^>]*>::)?(iter|iter_mut)$'), m_coll_iter),
-    (R(r' as Iterator>::(map|filter|filter_map|flat_map|inspect|cloned|copied|take|skip|enumerate|by_ref|peekable|fuse)$'), m_adaptor),
+    (R(r' as Iterator>::(map|filter|filter_map|flat_map|inspect|cloned|copied|take|skip|zip|enumerate|by_ref|peekable|fuse)$'), m_adaptor),
     (R(r' as Iterator>::next$'), m_next),
     (R(r' as Iterator>::collect$'), m_collect),
     (R(r' as Iterator>::fold$'), m_fold),
